@@ -42,7 +42,7 @@ Definition ccase := (nat * list (nat * snapc) * list livec)%type.
 Definition node_reachb (a b : node) : bool :=
   match nst a with
   | NNone => nrc a <=? nrc b
-  | NRunning => match nst b with NNone => nrc a <? nrc b | _ => nrc a <=? nrc b end
+  | NRunning => nrc a <=? nrc b
   | _ => nst_eqb (nst a) (nst b) && (nrc a =? nrc b)
   end.
 Fixpoint tbl_reachb (t t' : table) : bool :=
